@@ -112,6 +112,22 @@ func (obj *Chmm) ImportConfig(config ConfigDistribution, t ScalarType) error {
     return err
   } else {
     *obj = *r
+    // the model is rebuilt from Pi and Tr: restrict it to the start and final
+    // states of the file again
+    if states, ok := config.GetNamedParametersAsInts("StartStates"); !ok {
+      return fmt.Errorf("invalid config file")
+    } else {
+      if err := obj.SetStartStates(states); err != nil {
+        return err
+      }
+    }
+    if states, ok := config.GetNamedParametersAsInts("FinalStates"); !ok {
+      return fmt.Errorf("invalid config file")
+    } else {
+      if err := obj.SetFinalStates(states); err != nil {
+        return err
+      }
+    }
   }
   return nil
 err:
